@@ -800,7 +800,10 @@ def case_cw(p: dict) -> dict:
 H_INSIDE = [-19.9, -9.9, -5.0, -0.0060006, 0.0, 0.05, 3.0, 500.0, 999.9]
 H_OUTSIDE = [-25.0, 1001.0]
 H_OPS = [("construct", "default-interpolation"), ("construct", "direct"), ("construct", "passed-default"),
-         ("set", "NONE", "NONE"), ("set", "FUNCTION", "FUNCTION"), ("probe-outside",)]
+         ("set", "NONE", "NONE"), ("set", "FUNCTION", "FUNCTION"), ("probe-outside",),
+         # ANOTHER potential (built with the defaults: its own Integrals object, direct evaluation) tabulates its own J_b on [0, 10]
+         # with constant continuation - as the shipped models do with their own table files. Nobody else's integrals may change.
+         ("other-potential-configures-its-integrals",)]
 H_INITIAL = [("NONE", "NONE"), ("ERROR", "ERROR"), ("CONSTANT", "NONE"), ("FUNCTION", "CONSTANT")]
 
 
@@ -852,6 +855,11 @@ def _h_apply(d, op):
         for J in (d.Jb, d.Jf):
             J.setExtrapolationType(getattr(E, op[1]), getattr(E, op[2]))
         return None
+    if op[0] == "other-potential-configures-its-integrals":
+        other = _pot_class()()
+        other.integrals.Jb.newInterpolationTable(0.0, 10.0, 60)
+        other.integrals.Jb.setExtrapolationType(E.CONSTANT, E.CONSTANT)
+        return None
     if op[0] == "probe-outside":
         out = []
         for J in (d.Jb, d.Jf):
@@ -874,6 +882,10 @@ def _h_key(d) -> str:
             "n": J.numPoints(), "min": float(J.interpolationRangeMin()), "max": float(J.interpolationRangeMax()),
             "extrapolate-flag": bool(J._interpolatedFunction.extrapolate),
         }
+    # state that is NOT on the shared object but decides future observations: what a potential built with the defaults starts from
+    probe = _pot_class()()
+    obs["fresh-default-potential"] = {"Jb-has-table": bool(probe.integrals.Jb.hasInterpolation()), "Jf-has-table": bool(probe.integrals.Jf.hasInterpolation()),
+                                      "shares-default-object": probe.integrals is _PT().defaultIntegrals}
     return bfs.digest(obs)
 
 
@@ -917,7 +929,15 @@ def case_history(p: dict) -> dict:
         return bad
 
     h0 = [("set",) + init]
-    res = bfs.explore(build, ops, _h_apply, _h_key, check, depth=p["depth"], initial_histories=[h0])
+    try:
+        res = bfs.explore(build, ops, _h_apply, _h_key, check, depth=p["depth"], initial_histories=[h0])
+    except RuntimeError as e:
+        if "nondeterministic replay" not in str(e):
+            raise
+        # the same history replayed on freshly initialised shared objects reaches a different state: something outside the objects
+        # this check re-initialises (a class-level or module-level object) carries state from one replay to the next
+        r.true("history-replay-deterministic(no hidden shared state)", False, error=str(e)[:400])
+        return r.result(nontrivial=True)
     r.viol.extend({"relation": v["relation"], "detail": {**(v.get("detail") or {}), "history": v["history"]}} for v in res.violations)
     r.detail.update(states=res.states, transitions=res.transitions, max_depth=res.max_depth,
                     outcomes={k: len(v) for k, v in res.outcomes.items()}, samples=res.samples)
@@ -971,11 +991,12 @@ def run(ctx) -> None:
     if want("history"):
         cases = with_ids([{"id": f"initial={a}/{b}", "initial": [a, b], "depth": 3} for a, b in H_INITIAL])
         res = ctx.run_lattice("history", cases, case_history, timeout=1500)
-        st = sum((x.get("detail") or {}).get("states", 0) for x in res)
-        tr = sum((x.get("detail") or {}).get("transitions", 0) for x in res)
+        dets = [x.get("detail") if isinstance(x.get("detail"), dict) else {} for x in res]
+        st = sum(d.get("states", 0) for d in dets)
+        tr = sum(d.get("transitions", 0) for d in dets)
         ctx.add_bfs(st, tr, tr)
         ctx.note("history", {"depth": 3, "ops": [list(o) for o in H_OPS], "initial_mode_pairs": [list(i) for i in H_INITIAL],
-                             "distinct_outcomes": [(x.get("detail") or {}).get("outcomes") for x in res]})
+                             "distinct_outcomes": [d.get("outcomes") for d in dets]})
     nrows = len(row_selection(ctx.tier))
     ctx.note("table_rows_checked_against_reference", {"per_table": nrows, "of": NROWS})
     ctx.note("table_rows_smoothness_tested", "all rows with x >= 5.2 (rows below are all compared with the reference in both tiers)")
